@@ -6,6 +6,7 @@
    anywhere: the equalities hold outcome by outcome. *)
 From Twig Require Import Base.Bytes Base.Utf8 Model.Ast Model.Value Model.ValueOps Model.EvalBuiltins Model.Ctx
                          Model.TemplateSet Model.Eval Spec.ControlSpec Proofs.EvalProofs Proofs.EvalShapeProofs Gen.EvalShape.
+From Twig Require Import Base.Kernel Gen.KernelsLoop Gen.KernelsRange Proofs.KernelLoop Proofs.KernelRangeModel.
 
 (* ---------------------------------------------------------------- refinement *)
 (* the renderer IS the control specification (with the engine's own truthiness function) on every node list *)
@@ -238,6 +239,51 @@ Example C09_example_float_zero :
   = Ok (if evs_tobool_float_by_value then b#"F" else b#"T").
 Proof. vm_compute. reflexivity. Qed.
 
+
+(* ---------------------------------------------------------------- the counters and the range of the code itself *)
+(* Gen/KernelsLoop.v: the assignments to the loop map in every loop of renderForLoop, translated statement by
+   statement from the working tree. Each of them writes exactly the record ev_loop_record of the model (which
+   C09_counters is about), in unbounded integers and, for 0 <= i < n < 2^63, on the 64-bit machine. *)
+Theorem C09_loop_counters_code : k_loop_counters_list <> [] /\ Forall kloop_good k_loop_counters_list.
+Proof. exact k_loop_counters_all_good. Qed.
+
+Theorem C09_loop_counters_on_machine :
+  Forall (fun q => let '(f, sf, ir, env) := q in
+                   forall i n, (0 <= i < n)%Z -> (n < 2^63)%Z -> krun w64 (env i n) ir = kloop_spec i n) k_loop_counters_list.
+Proof.
+  eapply Forall_impl; [|exact (proj2 k_loop_counters_all_good)]. intros q Hq. exact (kloop_good_machine q Hq).
+Qed.
+
+(* Gen/KernelsRange.v: functionRange computes the number of items first and then stores start + k * step at position
+   k. For all int64 arguments that is the list the loop of the model (bi_range_loop, which C09_range_elements is
+   about) produces, and every stored item is computed exactly although k * step alone may wrap around. *)
+Theorem C09_range_code_is_model_loop : forall (start stop step : Z) (fuel : nat),
+  in64 start = true -> in64 stop = true -> in64 step = true -> step <> 0%Z ->
+  (Z.abs (stop - start) < Z.of_nat fuel)%Z ->
+  match k_range_count start stop step with
+  | KRet tag [] => bytes_eqb tag b#"empty" = true -> bi_range_loop fuel start stop step = []
+  | KRet tag [KZ c] => bytes_eqb tag b#"items" = true -> bi_range_loop fuel start stop step = krange_items start step c
+  | _ => True
+  end.
+Proof. exact k_range_is_model_loop. Qed.
+
+Theorem C09_range_count_is_spec : forall start stop step : Z,
+  in64 start = true -> in64 stop = true -> in64 step = true ->
+  k_range_count start stop step = krange_spec start stop step.
+Proof. exact k_range_count_model. Qed.
+
+Theorem C09_range_item_on_machine : forall start stop step c k : Z,
+  in64 start = true -> in64 stop = true -> in64 step = true ->
+  k_range_count start stop step = KRet b#"items" [KZ c] -> (0 <= k < c)%Z ->
+  krun w64 (k_range_item_env start step k) k_range_item_ir = KRet b#"item" [KZ (start + k * step)%Z].
+Proof. exact k_range_item_machine. Qed.
+
+(* not vacuous: range(10, 1, -4) has 3 items; iteration 1 of 3 *)
+Example C09_range_code_example : k_range_count 10 1 (-4) = KRet b#"items" [KZ 3%Z] /\ krange_items 10 (-4) 3 = [10; 6; 2]%Z.
+Proof. split; reflexivity. Qed.
+Example C09_loop_counters_example : kloop_spec 1 3 = KRet b#"loop" [KZ 2%Z; KZ 1%Z; KZ 2%Z; KZ 1%Z; KB false; KB false].
+Proof. reflexivity. Qed.
+
 Print Assumptions C09_refines_spec.
 Print Assumptions C09_refines_spec_template.
 Print Assumptions C09_refines_table_spec.
@@ -263,3 +309,8 @@ Print Assumptions C09_range_elements.
 Print Assumptions C09_range_membership.
 Print Assumptions C09_set_visible_after.
 Print Assumptions C09_code_shape.
+Print Assumptions C09_loop_counters_code.
+Print Assumptions C09_loop_counters_on_machine.
+Print Assumptions C09_range_code_is_model_loop.
+Print Assumptions C09_range_count_is_spec.
+Print Assumptions C09_range_item_on_machine.
